@@ -188,7 +188,11 @@ pub fn c15_oracle(d: &Dg, agg: &Agg, nq: usize, nx: usize, evals: &mut u64) -> O
     let tau = 8.0 * f64::EPSILON * scale * amp;
     let tau_c = 8.0 * f64::EPSILON * amp;
     let cents = d.centroids();
-    let res = cents.iter().map(|c| c.1).fold(0.0, f64::max) / total;
+    // "to within the digest's resolution": one twentieth of the share of the heaviest centroid. The two reads interpolate through the
+    // same knots (min, 0), (mean_i, cum_i + w_i / 2), (max, 1), so on the unchanged tree the bracket below holds with res = 0 in every
+    // digest explored; a disagreement of a whole centroid share (the bound used up to round 12) let a quantile() that ignores the mean
+    // of a lone centroid pass (seeded change C15m)
+    let res = 0.05 * cents.iter().map(|c| c.1).fold(0.0, f64::max) / total;
     // quantile grid
     let mut prev = f64::NEG_INFINITY;
     let mut qs: Vec<(f64, f64)> = Vec::with_capacity(nq + 1);
@@ -252,7 +256,7 @@ pub fn c15_oracle(d: &Dg, agg: &Agg, nq: usize, nx: usize, evals: &mut u64) -> O
         let above = d.cdf(x + t2);
         *evals += 2;
         if q < below - res - tau_c || q > above + res + tau_c {
-            return Some(("cdf(quantile(q)) inconsistent".into(), format!("q = {}: x = quantile(q) = {}, cdf just below / above x = {} / {}, resolution (largest centroid share) = {}; centroids {:?}", q, x, below, above, res, cents)));
+            return Some(("cdf(quantile(q)) inconsistent".into(), format!("q = {}: x = quantile(q) = {}, cdf just below / above x = {} / {}, resolution (5 % of the largest centroid share) = {}; centroids {:?}", q, x, below, above, res, cents)));
         }
     }
     // repeated reads are bit-identical
@@ -392,6 +396,15 @@ pub fn c16_oracle(st: &TSt, cmp: &mut u64) -> Option<(String, String)> {
     }
     if d.max() != a.max {
         return Some(("max".into(), format!("max() = {} but the largest inserted value is {}", d.max(), a.max)));
+    }
+    // every aggregate as the FIRST read of the digest (a fresh copy each, the backlog still unmerged where there is one) gives the
+    // same answer as after the reads above: a getter must not depend on another read having merged the backlog before it
+    *cmp += 5;
+    let firsts: [(&str, f64, f64); 5] = [("count", st.d.clone().count(), cw), ("sum", st.d.clone().sum(), cs), ("mean", st.d.clone().mean(), m), ("min", st.d.clone().min(), d.min()), ("max", st.d.clone().max(), d.max())];
+    for (name, first, later) in firsts {
+        if first.to_bits() != later.to_bits() && !(first == later) {
+            return Some((format!("{} depends on the order of reads", name), format!("{}() as the first read of the digest = {}, after is_empty() / count() / sum() = {}", name, first, later)));
+        }
     }
     None
 }
